@@ -327,6 +327,41 @@ Proof.
   - apply (explicit_into_Supp false 2 3 3 3 (le_n 3)). intros x k i l _ _ Hm. rewrite Hm. reflexivity.
 Qed.
 
+(** ** maybe_fix_sim_time_roundoff (dt * round(sim_time / dt)) as the last step filter:
+    for any rounding to the nearest integer, any dt <> 0 of either sign, any scheme whose
+    consistency sum cs is within 1/2 of 1, any array filters: from n0*dt (n0 any integer,
+    negative, zero or positive) the clock after k steps is exactly (n0 + k)*dt *)
+Theorem C11_fix_time_trajectory {F : Type} {o : Ops F} {Oc : OrdFieldC o} (ZM : ZMorph o)
+        (rnd : F -> Z) (dt cs : F) {V : Type} {vo : VSp F V} (Fx G : V -> V) (Ginv : F -> V -> V)
+        (t : stepterm F) (fs : list (V -> V)) (n0 : Z) k (u : V * F) :
+  nearest rnd -> dt <> 0 -> flt (1 - ihalf) cs -> flt cs (1 + ihalf) ->
+  consistent t (dt * cs) -> snd u = dt * fofZ n0 ->
+  snd (iter k (with_filters (step_of (vo := TimedSp vo) (timed_F 1 Fx) (timed_G G) (timed_Ginv Ginv) t)
+                            (map (fun f => rk_filter (timed_filter f)) fs
+                                 ++ [rk_filter (fix_time_filter rnd dt)])) u)
+  = dt * fofZ (n0 + Z.of_nat k)%Z.
+Proof.
+  intros Hn Hdt Hlo Hhi Hc Hu.
+  exact (fix_time_trajectory ZM rnd dt cs Hn Hdt Hlo Hhi Fx G Ginv t fs n0 k u Hc Hu).
+Qed.
+
+(** instance: round-half-to-even on the rationals (the model of jnp.round that is run
+    against the implementation) is a rounding to nearest; with the generated RK3 table the
+    clock started at n0*dt is at (n0 + k)*dt after k steps, for every integer n0 and every k *)
+Theorem C11_fix_time_round_half_even {V : Type} {vo : VSp Qc V} (Fx G : V -> V) (Ginv : Qc -> V -> V)
+        (dt : Qc) (fs : list (V -> V)) (n0 : Z) k (u : V * Qc) :
+  nearest (fun x : Qc => rhe (this x)) /  (dt <> 0 -> snd u = dt * fofZ n0 ->
+   snd (iter k (with_filters (step_of (vo := TimedSp vo) (timed_F 1 Fx) (timed_G G) (timed_Ginv Ginv)
+                                      (ls_step_term dt (qcl rk3_alphas) (qcl rk3_betas) (qcl rk3_gammas)))
+                             (map (fun f => rk_filter (timed_filter f)) fs
+                                  ++ [rk_filter (fix_time_filter (fun x : Qc => rhe (this x)) dt)])) u)
+   = dt * fofZ (n0 + Z.of_nat k)%Z).
+Proof.
+  split; [exact rnd_qc_nearest|]. intros Hdt Hu.
+  apply (fix_time_trajectory QcZMorph _ dt 1 rnd_qc_nearest Hdt); [reflexivity|reflexivity| |exact Hu].
+  rewrite <- rk3_consistency. apply ls_consistent.
+Qed.
+
 Print Assumptions C11_term_preserves_subspace.
 Print Assumptions C11_trajectory_in_subspace.
 Print Assumptions C11_leapfrog_trajectory_in_subspace.
@@ -350,3 +385,5 @@ Print Assumptions C11_uniform_tracer_stays_uniform.
 Print Assumptions C11_terms_are_the_integrators.
 Print Assumptions C11_sim_time_advances_R.
 Print Assumptions C11_hyps_satisfiable.
+Print Assumptions C11_fix_time_trajectory.
+Print Assumptions C11_fix_time_round_half_even.
